@@ -163,7 +163,8 @@ PROPS = {
         "trusted_base": LEAN_TB, "assumptions": ARRAY_ASSUME + [
             "the model's operations return Except: a rejected request carries no new state; what ties this to the code is the per-operation comparison of the net storage effect ('EFF -' after every rejected request) and of the full dump written immediately after every rejected request; on the implementation the tree and the write-set keys are compared immediately before and after it",
             "nested handles (ancestors untouched by a rejected child request) are exercised by the rejectpair stream (one nested array driven through its own handle) and by C10's stream, not by these theorems",
-            "OBSERVATION (not raised): when a first-level group is at the collision limit, hkeyElements.Set probes it with elem.Get and drops every error but KeyNotFound; a comparator / storage-read failure inside that probe is not reported and the request is served (a new colliding key is admitted past the limit). Counted per run as observation:comparator-error-swallowed-in-limit-probe / observation:storage-read-error-swallowed-in-limit-probe in the distribution"],
+            "OBSERVATION (not raised): when a first-level group is at the collision limit, hkeyElements.Set probes it with elem.Get and drops every error but KeyNotFound; a comparator / storage-read failure inside that probe is not reported and the request is served (a new colliding key is admitted past the limit). Counted per run as observation:comparator-error-swallowed-in-limit-probe / observation:storage-read-error-swallowed-in-limit-probe in the distribution",
+            "OBSERVATION (not raised; outside the property text, which speaks of failures during a lookup): a storage read that fails AFTER the lookup - the sibling fetched to merge / rebalance with once a Remove has taken the element out and stored the data slab - is reported as External but leaves the removal half applied (slab without the element in the write set, stale parent header, map count not decremented). Counted as observation:storage-read-failure-after-lookup-leaves-partial-change; the 'nothing changed' oracle is applied to failures that fire before the request's first storage write"],
         "rule": "array stream: out-of-range get/set/insert/remove at every state (profile 3) incl. indices 2^64-1, 2^32, count+2^32, 2^63; map collision stream: absent-key removals and collision-limit refusals (limits 0..3) at every state; callback stream: comparator failing at call 1..4 of Get/Has/Set/Remove on maps with collision groups AND with mostly non-colliding keys, during mutable iterations; hash-input provider failing for Get/Has/Set/Remove/iterations and for the re-hash of the resident key; ledger reads and SlabStorage reads failing during map and array requests (slabs dropped from the cache first), slab iterator, batch preload; undefined-identifier requests (NewArrayWithRootID / NewMapWithRootID / Store / Remove / Retrieve); collision-limit probe with failing callbacks (observation); rejectpair: 16 histories of 300-500 requests over an array with a nested array, a map with collision limit 1-3 and a map with the real digester, a third of the requests rejected, executed with and without the rejected requests; distinct = distinct (request kind, error kind) pairs + programs",
         "explanation": "Theorems: arg_error_category / model_error_categories (by decide over the table regenerated from errors.go), callback_failure_is_external (model of wrapErrorfAsExternalErrorIfNeeded), reject_is_noop, history_with_rejections_same_state. Oracle: errors.As category, no SlabStorage call during a rejected request, dump of every container (incl. the ancestors of a nested handle) and the exact write-set keys unchanged immediately after it, ledgers (registers and allocation counters) byte-identical after every commit between the history with its rejected requests and the history without them.",
     },
